@@ -1049,7 +1049,10 @@ class H2Stream:
             events[0].stream_ended = es_events[0]
             events += es_events
 
-        self._initialize_content_length(headers)
+        # An informational (1xx) response has no content: a content-length
+        # field it carries says nothing about the final response.
+        if input_ != StreamInputs.RECV_INFORMATIONAL_HEADERS:
+            self._initialize_content_length(headers)
 
         if isinstance(events[0], TrailersReceived):
             if not end_stream:
